@@ -26,6 +26,12 @@ type C12Dir struct {
 	End    int      `json:"end"`             // range: id of the statement whose leading comment carries -end; 0 = the block's closing comment
 	Rules  []string `json:"rules,omitempty"` // empty = all rules
 	Marker string   `json:"marker"`          // "//", "#", "/*"
+	Slot   int      `json:"slot,omitempty"`  // next: 2 = the second leading comment line of the statement (stacked directives)
+	// accum (docs/linter.md "Range ignoring", last example): start Rules at Target, start Rules2 at Target2,
+	// optional `end Rules` at End1, bare end at End: the ignored rules accumulate until they are re-enabled
+	Target2 int      `json:"target2,omitempty"`
+	Rules2  []string `json:"rules2,omitempty"`
+	End1    int      `json:"end1,omitempty"`
 }
 
 type C12Case struct {
@@ -95,8 +101,71 @@ func genC12(t *rapid.T) any {
 				d.Rules = append(d.Rules, rapid.SampledFrom(c12Rules).Draw(t, "rule"))
 			}
 		}
-		kind := rapid.SampledFrom([]string{"next", "next", "this", "range", "range"}).Draw(t, "dkind")
+		kind := rapid.SampledFrom([]string{"next", "next", "this", "range", "range", "stacked", "accum"}).Draw(t, "dkind")
 		switch kind {
+		case "stacked":
+			// two falco-ignore-next-line comments in front of one statement, each with its own rule list
+			if usedLead[r.s.ID] || r.s.Lead2 == "" {
+				continue
+			}
+			usedLead[r.s.ID] = true
+			d.Kind = "next"
+			if len(d.Rules) == 0 {
+				d.Rules = []string{rapid.SampledFrom(c12Rules).Draw(t, "rule")}
+			}
+			c.Dirs = append(c.Dirs, d)
+			d2 := C12Dir{Kind: "next", Target: r.s.ID, Slot: 2, Marker: rapid.SampledFrom([]string{"//", "#", "/*"}).Draw(t, "marker2")}
+			if rapid.IntRange(0, 3).Draw(t, "second-all") > 0 {
+				d2.Rules = []string{rapid.SampledFrom(c12Rules).Draw(t, "rule2")}
+			}
+			c.Dirs = append(c.Dirs, d2)
+			continue
+		case "accum":
+			blk := *r.block
+			var free []int
+			for j := r.idx; j < len(blk); j++ {
+				if !usedLead[blk[j].ID] {
+					free = append(free, j)
+				}
+			}
+			if len(free) < 3 || free[0] != r.idx {
+				continue
+			}
+			k := 3
+			if len(free) >= 4 && rapid.Bool().Draw(t, "end-with-rules") {
+				k = 4
+			}
+			// choose k increasing positions starting at r.idx
+			pos := []int{r.idx}
+			rest := free[1:]
+			for len(pos) < k {
+				need := k - len(pos)
+				j := rapid.IntRange(0, len(rest)-need).Draw(t, "accpos")
+				pos = append(pos, rest[j])
+				rest = rest[j+1:]
+			}
+			first, last := blk[pos[0]].ID, maxID(&blk[pos[k-1]-1])
+			overlap := false
+			for _, rg := range ranges {
+				if !(last < rg[0] || first > rg[1]) {
+					overlap = true
+				}
+			}
+			if overlap {
+				continue
+			}
+			ranges = append(ranges, [2]int{first, last})
+			d.Kind = "accum"
+			d.Rules = []string{rapid.SampledFrom(c12Rules).Draw(t, "rule")}
+			d.Rules2 = []string{rapid.SampledFrom(c12Rules).Draw(t, "rule2")}
+			d.Target2 = blk[pos[1]].ID
+			if k == 4 {
+				d.End1 = blk[pos[2]].ID
+			}
+			d.End = blk[pos[k-1]].ID
+			for _, q := range pos {
+				usedLead[blk[q].ID] = true
+			}
 		case "this":
 			if r.s.Compound || usedTrail[r.s.ID] {
 				continue // trailing falco-ignore only on simple statements (documentation is ambiguous for compound ones)
@@ -281,8 +350,39 @@ func checkC12(raw json.RawMessage) iso.Result {
 		}
 		switch d.Kind {
 		case "next":
-			r.s.Lead = directiveText(d.Marker, "falco-ignore-next-line", d.Rules)
+			if d.Slot == 2 {
+				r.s.Lead2 = directiveText(d.Marker, "falco-ignore-next-line", d.Rules)
+				col.Label("dir:stacked-next-line")
+			} else {
+				r.s.Lead = directiveText(d.Marker, "falco-ignore-next-line", d.Rules)
+			}
 			covers = append(covers, cover{span[d.Target][0], span[d.Target][1], d.Rules})
+		case "accum":
+			blk := *r.block
+			t2, e := byID[d.Target2], byID[d.End]
+			r.s.Lead = directiveText(d.Marker, "falco-ignore-start", d.Rules)
+			t2.s.Lead = directiveText(d.Marker, "falco-ignore-start", d.Rules2)
+			e.s.Lead = directiveText(d.Marker, "falco-ignore-end", nil)
+			both := append(append([]string{}, d.Rules...), d.Rules2...)
+			covers = append(covers, cover{span[d.Target][0], span[blk[t2.idx-1].ID][1], d.Rules})
+			if d.End1 != 0 {
+				e1 := byID[d.End1]
+				e1.s.Lead = directiveText(d.Marker, "falco-ignore-end", d.Rules)
+				covers = append(covers, cover{span[d.Target2][0], span[blk[e1.idx-1].ID][1], both})
+				// after `end Rules` only Rules2 stays ignored (unless both lists name the same rule)
+				var left []string
+				for _, x := range d.Rules2 {
+					if x != d.Rules[0] {
+						left = append(left, x)
+					}
+				}
+				if len(left) > 0 {
+					covers = append(covers, cover{span[d.End1][0], span[blk[e.idx-1].ID][1], left})
+				}
+				col.Label("dir:accum-end-with-rules")
+			} else {
+				covers = append(covers, cover{span[d.Target2][0], span[blk[e.idx-1].ID][1], both})
+			}
 		case "this":
 			r.s.Trail = directiveText(d.Marker, "falco-ignore", d.Rules)
 			covers = append(covers, cover{span[d.Target][0], span[d.Target][1], d.Rules})
